@@ -162,9 +162,13 @@ proof fn lemma_advance_self<T: Block>(s: Seq<T>, o: Seq<T>, r: Seq<T>, si: int, 
     }
 }
 
-/// vacuity guard: the precondition of `difference` is satisfiable (two empty chains)
-proof fn reach_difference<T: Block>()
-    ensures canonical(Seq::<T>::empty()),
+/// vacuity guard: the precondition of `difference` is satisfiable - by two empty chains and by
+/// any two single-block chains (which may overlap arbitrarily)
+proof fn reach_difference<T: Block>(a: T, b: T)
+    requires a.lo() <= a.hi(), b.lo() <= b.hi(),
+    ensures
+        canonical(Seq::<T>::empty()) && canonical(Seq::<T>::empty()),
+        canonical(seq![a]) && canonical(seq![b]),
 {
 }
 
@@ -202,6 +206,8 @@ impl<T: Block> Chain<T> {
     //@ghost begin
         proof { T::ord_law(); }
     //@/ghost
+    // closure contract (R2) written as a //@sub because Verus only parses `|x| -> (b: T) ensures ..`
+    // when the closure body is a block: the body expression is wrapped in `{ }`, text unchanged
     //@sub R2 "|item| (item.min(), item.max())" "|item| -> (b: (T::Item, T::Item)) ensures T::val(b.0) == item.lo(), T::val(b.1) == item.hi() { (item.min(), item.max()) }"
     //@loop "loop"
             invariant_except_break
@@ -223,7 +229,10 @@ impl<T: Block> Chain<T> {
             decreases
                 self_iter.decrease().unwrap(),
                 (if other_item.is_some() { other_iter.decrease().unwrap() + 1 } else { 0 }),
+                T::val(self_item.1) - T::val(self_item.0),
     //@/loop
+    // no loopiso: `invariant_except_break`/`ensures` are rejected under loop_isolation(false), so the
+    // facts needed inside the loop are restated in the invariant and ord_law is re-called in the body
     //@ghost after "let mut take_next_other = false;"
             let ghost res0 = res@;
             proof { T::ord_law(); }
@@ -240,7 +249,6 @@ impl<T: Block> Chain<T> {
                 lemma_step(s, o, res0, res@, si, oi, lo, f, pushed);
                 if take_next_self { lemma_advance_self(s, o, res@, si, f); }
                 assert(take_next_other ==> oi < o.len() && o[oi].hi() < f);
-                assert(take_next_self || take_next_other);
             }
     //@/ghost
     //@end
